@@ -2,7 +2,8 @@
    Bytes >= 0x80 are never token characters (IndexFunc decodes them to runes
    above 'z' or to RuneError), so the byte-wise scan is exact.
    strconv.QuotedPrefix/Unquote is modelled only for quoted strings without
-   backslash and without bytes >= 0x80 (otherwise the verdict is Unjudged).
+   bytes >= 0x80 and with the escapes backslash-backslash and backslash-quote
+   only (otherwise the verdict is Unjudged).
    No proofs in this file. *)
 From Oras Require Import Base.Prelude Generated.GC16.
 
@@ -49,7 +50,18 @@ Fixpoint quoted_body (s : str) : option (option (str * str)) :=
   | [] => Some None
   | c :: s' =>
     if c =? 34 then Some (Some ([], s'))
-    else if c =? 92 then None
+    else if c =? 92 then
+      (* escapes: only backslash-backslash and backslash-quote are modelled *)
+      match s' with
+      | e :: s'' =>
+        if (e =? 92) || (e =? 34) then
+          match quoted_body s'' with
+          | Some (Some (v, r)) => Some (Some (e :: v, r))
+          | x => x
+          end
+        else None
+      | [] => Some None
+      end
     else if 128 <=? c then None
     else if c =? 10 then Some None
     else match quoted_body s' with
